@@ -9,7 +9,7 @@ SPEC = {
     'assumptions': ["math.ceil model (k-1 < x <= k)", "lat-lon variant: bounded only (inserted points within 1 cm of the great-circle arc, ordered, gaps <= dd)"],
     'deductive': [("planar interpolate_path (foreach + loop invariant)", 'planar', r'.')],
     'bounded': [('both-metrics-vs-reference', geo_suites.case_C20, 2000, 300000,
-                 "1-6 points; planar coordinates in [-50,50]^2; lat-lon legs 1 m .. 60 km at 9 anchors, one case in five with legs of 300 .. 9000 km, one leg in four axis-aligned (exactly the same latitude, or exactly the same longitude, as in gridded traces), one case in seven a high-rate trace with fixes 3 cm .. 1 m apart (checked in the local tangent plane to 0.1 mm); non-trivial = at least one leg subdivided", "")],
+                 "1-6 points; planar coordinates in [-50,50]^2; lat-lon legs 1 m .. 60 km at 9 anchors, one case in five with legs of 300 .. 9000 km, one leg in four axis-aligned (exactly the same latitude, or exactly the same longitude, as in gridded traces), one case in seven a high-rate trace with fixes 3 cm .. 1 m apart (checked in the local tangent plane to 0.1 mm); one planar case in three hands the trace in as a float array, a list of arrays or a list of lists (checked against a copy taken before the call); non-trivial = at least one leg subdivided", "")],
     'extra_builders': {'planar': lambda prog, tier: [IP.vc_interpolate_planar(prog)]},
 }
 
